@@ -2613,7 +2613,7 @@ func ruleBundleWalkChain(id string) func(*Checker) {
 			if !inBundlePkg(p, fn) || fn.Parent() == nil || len(fn.Params) != 3 {
 				continue
 			}
-			if len(callsTo(fn, func(o *types.Func) bool { return o != nil && o.Name() == "Excludes" })) > 0 && len(callsTo(fn, func(o *types.Func) bool { return isFunc(o, "path/filepath", "IsLocal") })) > 0 {
+			if len(callsTo(fn, func(o *types.Func) bool { return o != nil && o.Name() == "Excludes" })) > 0 && len(callsTo(fn, func(o *types.Func) bool { return isFunc(o, "path/filepath", "Rel") })) > 0 {
 				w, g = fn, fn.Parent()
 			}
 		}
@@ -2735,7 +2735,7 @@ func ruleBundleWalkChain(id string) func(*Checker) {
 			}
 			domT, _ := condEdges(w, func(v ssa.Value) bool { return fieldOfVerdict(v, sv, "Dominating") })
 			rec := false
-			for _, ci := range callsTo(w, func(o *types.Func) bool { return isFunc(o, "os", "RemoveAll") }) {
+			for _, ci := range removeAllCalls(p, w) {
 				if len(domT) > 0 && guarded(ci.Block(), domT) {
 					rec = true
 				}
@@ -2801,7 +2801,7 @@ func ruleBundleWalkChain(id string) func(*Checker) {
 				_, f := condEdges(w, func(v ssa.Value) bool { return fieldOfVerdict(v, sv, "Excluded") })
 				return f
 			}()
-			for _, ci := range callsTo(w, func(o *types.Func) bool { return isFunc(o, "os", "RemoveAll") }) {
+			for _, ci := range removeAllCalls(p, w) {
 				if len(domT) > 0 && guarded(ci.Block(), domT) && len(exF) > 0 {
 					behind := false
 					for _, e := range exF {
@@ -2831,9 +2831,37 @@ func ruleBundleWalkChain(id string) func(*Checker) {
 			}
 			c.check(canon(ci.Common().Args[0]) == relPath, id, name, "link target joined onto the directory of the entry's name", p.Pos(ci.Pos()), "filepath.Dir(name relative to the root)", "the link's target is joined onto the directory of something other than the entry's name (the root, the absolute path, the target itself): every '..' then counts from the wrong place — escaping links pass, or sub/link -> ../file is refused")
 		}
-		// (5), (6)
+		// (5), (6) — in the callback itself or in the one helper it hands (root, name) to
+		hw := w
+		isRootV := func(v ssa.Value) bool { return capturedParamOf(v, g) == rootIdx }
+		isRelV := func(v ssa.Value) bool { return canon(v) == relPath }
+		if len(callsTo(w, func(o *types.Func) bool { return isFunc(o, "path/filepath", "IsLocal") })) == 0 {
+			for _, ci := range callsIn(w) {
+				h := ci.Common().StaticCallee()
+				if h == nil || !p.InModule(h) || len(callsTo(h, func(o *types.Func) bool { return isFunc(o, "path/filepath", "IsLocal") })) == 0 {
+					continue
+				}
+				ri, ni := -1, -1
+				for i, a := range ci.Common().Args {
+					if isRootV(a) {
+						ri = i
+					}
+					if isRelV(a) {
+						ni = i
+					}
+				}
+				if ri >= 0 && ni >= 0 && ri < len(h.Params) && ni < len(h.Params) {
+					hw = h
+					rp, np := h.Params[ri], h.Params[ni]
+					isRootV = func(v ssa.Value) bool { return canon(v) == ssa.Value(rp) }
+					isRelV = func(v ssa.Value) bool { return canon(v) == ssa.Value(np) }
+				}
+			}
+		}
+		hname := p.FuncName(hw)
+		_ = hname
 		var absRoot, realPath ssa.Value
-		for _, ci := range callsTo(w, func(o *types.Func) bool { return isFunc(o, "path/filepath", "EvalSymlinks") }) {
+		for _, ci := range callsTo(hw, func(o *types.Func) bool { return isFunc(o, "path/filepath", "EvalSymlinks") }) {
 			cl, ok := ci.(*ssa.Call)
 			if !ok {
 				continue
@@ -2841,27 +2869,27 @@ func ruleBundleWalkChain(id string) func(*Checker) {
 			bs := p.backSlice(cl.Call.Args[0], 0)
 			viaAbs := false
 			for x := range bs {
-				if ac, ok := x.(*ssa.Call); ok && isFunc(calleeObj(ac), "path/filepath", "Abs") && capturedParamOf(ac.Call.Args[0], g) == rootIdx {
+				if ac, ok := x.(*ssa.Call); ok && isFunc(calleeObj(ac), "path/filepath", "Abs") && isRootV(ac.Call.Args[0]) {
 					viaAbs = true
 				}
 			}
 			if jc := callOf(canon(cl.Call.Args[0])); jc != nil && isFunc(calleeObj(jc), "path/filepath", "Join") {
 				realPath = extractOf(cl, 0)
 				ja := joinArgs(jc)
-				okJ := len(ja) == 2 && canon(ja[1]) == relPath && absRoot != nil && (canon(ja[0]) == absRoot || p.backSlice(ja[0], 0)[absRoot])
+				okJ := len(ja) == 2 && isRelV(ja[1]) && absRoot != nil && (canon(ja[0]) == absRoot || p.backSlice(ja[0], 0)[absRoot])
 				c.check(okJ, id, name, "resolved path = resolved root joined with the name", p.Pos(cl.Pos()), "EvalSymlinks(Join(resolved root, name))", "the path that is resolved is not the resolved root joined with the entry's name")
 			} else if viaAbs {
 				absRoot = extractOf(cl, 0)
 			}
 		}
-		for _, ci := range callsTo(w, func(o *types.Func) bool { return isFunc(o, "path/filepath", "Rel") }) {
+		for _, ci := range callsTo(hw, func(o *types.Func) bool { return isFunc(o, "path/filepath", "Rel") }) {
 			cl, ok := ci.(*ssa.Call)
 			if !ok || cl == rel1 {
 				continue
 			}
 			c.check(absRoot != nil && realPath != nil && canon(cl.Call.Args[0]) == absRoot && canon(cl.Call.Args[1]) == realPath, id, name, "containment compares the resolved root with the resolved path", p.Pos(cl.Pos()), "filepath.Rel(EvalSymlinks(Abs(root)), EvalSymlinks(Join(…)))", "the resolved-path containment is computed between the wrong pair of paths (the unresolved root, the unresolved path, or the path with itself): in-package links are refused, or — with a target directory reached through a link — everything is")
 		}
-		for _, ci := range callsTo(w, func(o *types.Func) bool { return isFunc(o, "os", "Lstat") || isFunc(o, "os", "Stat") }) {
+		for _, ci := range callsTo(hw, func(o *types.Func) bool { return isFunc(o, "os", "Lstat") || isFunc(o, "os", "Stat") }) {
 			c.check(realPath != nil && canon(ci.Common().Args[0]) == realPath, id, name, "type test on the resolved path", p.Pos(ci.Pos()), "os.Lstat(resolved path)", "the regular-file-or-directory test looks at another path than the one the entry resolves to (the root: always a directory; the unresolved path: always a link): special files are let through, or every link is refused")
 		}
 	}
@@ -3035,4 +3063,22 @@ func extractOf2(tuple ssa.Value, idx int) ssa.Value {
 		}
 	}
 	return nil
+}
+
+// removeAllCalls: the calls in fn that remove a tree — os.RemoveAll itself, or a
+// module helper that calls it.
+func removeAllCalls(p *Prog, fn *ssa.Function) []ssa.CallInstruction {
+	var out []ssa.CallInstruction
+	for _, ci := range callsIn(fn) {
+		if isFunc(calleeObj(ci), "os", "RemoveAll") {
+			out = append(out, ci)
+			continue
+		}
+		if h := ci.Common().StaticCallee(); h != nil && p.InModule(h) && h != fn {
+			if len(callsTo(h, func(o *types.Func) bool { return isFunc(o, "os", "RemoveAll") })) > 0 {
+				out = append(out, ci)
+			}
+		}
+	}
+	return out
 }
